@@ -7,6 +7,7 @@ from . import common as C
 from .prop_c01 import _fname
 
 PID = 'C16'
+IMPL_KEYS = ('bounds', 'bs')     # values observed on the REAL code, sent to the driver (see check: evaluate)
 PARALLEL = False
 BATCH = 4000
 BUDGET_S = {'quick': 60, 'thorough': 600}
